@@ -551,6 +551,8 @@ FIXTURE = [
     ('__main__', 'pkg', False, '"""main"""\ndef run():\n    "r"\n'),
     ('sub', 'pkg', True, '"""s"""\n'),
     ('leaf', 'pkg.sub', False, '"""l"""\nclass L:\n    "l"\n'),
+    # the root's own short name, repeated inside it (tqdm/tqdm.py)
+    ('pkg', 'pkg', False, '"""inner"""\nclass pkg:\n    "same name"\n    def pkg(self):\n        "again"\n'),
 ]
 RULESETS = [
     [],
